@@ -922,6 +922,11 @@ def zuc(case, ctx):
     exp = ZR.eea3(key, count, bearer, direction, bits, nbits)
     exp = exp + b"\0" * (4 * nww - len(exp))
     same(ctx, got, exp, "zuc_eea_encrypt(nbits=%d, count=%#x, bearer=%d, dir=%d)" % (nbits, count, bearer, direction), "zuc/eea3")
+    if nww:
+        io = Buf.of(inw)
+        l.zuc_eea_encrypt(io, io, nbits, Buf.of(key), count, bearer, direction)
+        got2 = struct.pack(">%dI" % nww, *struct.unpack("<%dI" % nww, io.raw()))
+        same(ctx, got2, exp, "zuc_eea_encrypt in place (nbits=%d)" % nbits, "zuc/eea3-inplace")
     # 128-EIA3 and the generic MAC interface with a chunked byte prefix + trailing bits
     mac = l.zuc_eia_generate_mac(Buf.of(bits[:nby]), nbits, Buf.of(key), count, bearer, direction)
     exp = ZR.eia3(key, count, bearer, direction, bits, nbits)
